@@ -2,7 +2,9 @@
     Python harness.  A case is a program: a list of operations over graph registers, each operation a
     [list Z]; running it yields one [list Z] per operation.  All decoding/encoding is done here, in
     Gallina, so the OCaml driver is a dumb pipe. *)
-From DynVerif Require Import Base Graph Derived Annotate Paths IO Stats.
+From Coq Require Import QArith.
+From DynVerif Require Import Base Graph Derived Annotate Paths IO Stats Conformity.
+#[local] Open Scope Z_scope.
 
 Definition oz (has x : Z) : option Z := if has =? 0 then None else Some x.
 Definition zb (b : bool) : Z := if b then 1 else 0.
@@ -93,6 +95,27 @@ Fixpoint dec_lines (fuel : nat) (l : list Z) : list line :=
            | [] => []
            | n :: r => firstn (Z.to_nat n) r :: dec_lines f (skipn (Z.to_nat n) r)
            end
+  end.
+
+(** label tables: a sequence of [len; node; value; node; value; ...] blocks *)
+Fixpoint dec_tabs (fuel : nat) (l : list Z) : list labtab :=
+  match fuel with
+  | O => []
+  | S f => match l with
+           | [] => []
+           | n :: r => pairs_of (firstn (2 * Z.to_nat n) r) :: dec_tabs f (skipn (2 * Z.to_nat n) r)
+           end
+  end.
+(** conformity result: -2 None, -1 ValueError, else a sequence of [stamp; alpha; profile_index; node; num; den] *)
+Definition enc_conf (stamp : Z) (c : conf_res) : list Z :=
+  match c with
+  | ConfNone => [-2]
+  | ConfValueError => [-1]
+  | ConfOk l =>
+      flat_map (fun ap => let '(alpha, profs) := ap in
+         concat (map (fun ip => let '(i, nodes) := ip in
+                   flat_map (fun nq => [stamp; alpha; i; fst nq; Qnum (snd nq); Zpos (Qden (snd nq))]) nodes)
+                 (combine (zrange 0 (length profs)) profs))) l
   end.
 
 Definition regs := list graph.
@@ -273,6 +296,14 @@ Definition step_op (rs : regs) (op : list Z) : regs * list Z :=
            else if which =? 8 then match snapshot_density g u with Some x => pr x | None => [-1] end
            else node_presence g u)
   | 91 :: r :: sel :: u :: _ => (rs, flat_pairs (inter_event_time_distribution (getr rs r) sel u))
+  (* --- conformity --- *)
+  | 95 :: r :: sliding :: start :: delta :: ptype :: psize :: na :: l =>
+      let alphas := firstn (Z.to_nat na) l in
+      let tabs := dec_tabs (S (length l)) (skipn (Z.to_nat na) l) in
+      let g := getr rs r in
+      (rs, if sliding =? 0 then enc_conf 0 (delta_conformity g start delta alphas tabs (Z.to_nat psize) ptype)
+           else flat_map (fun sc => match snd sc with ConfNone => [] | c => enc_conf (fst sc) c end)
+                         (sliding_delta_conformity g delta alphas tabs (Z.to_nat psize) ptype))
   | 78 :: r :: d :: _ =>
       (rs, flat_map (fun x => let ln := render_snap_row d x in Z.of_nat (length ln) :: ln) (gen_snapshots (getr rs r)))
   | 79 :: r :: d :: _ =>
